@@ -406,6 +406,9 @@ func (w *World) serveOCSP(cp *CertPlan, src *OCSPSrc) func(x *Exchange, req *htt
 		}
 		b := EncodeOCSP(spec)
 		sv.Len = len(b)
+		if selfCheckSampled(x, len(b)) {
+			selfCheckOCSP(b, sv, cp.Serial, issuer.X)
+		}
 		return b, "application/ocsp-response"
 	}
 }
@@ -468,6 +471,9 @@ func (w *World) serveCRL(cp *CertPlan, src *CRLSrc, isDelta bool) func(x *Exchan
 		}
 		s := w.buildCRL(cp, src, plan, isDelta, now)
 		x.Rec.Served = &CRLServed{Spec: s}
+		if selfCheckSampled(x, len(s.DER)) {
+			selfCheckCRL(s, w.Certs[cp.Pos+1].C.X)
+		}
 		return s.DER, "application/pkix-crl"
 	}
 }
